@@ -241,13 +241,15 @@ ProgramOK(bs) == \A i \in 1..Len(bs) : bs[i] # <<>> /\ BlockOK(bs[i])
 
 -----------------------------------------------------------------------------
 (* poetic literals *)
-RECURSIVE RElems(_, _, _)
-RElems(st, es, first) ==
+(* between the words of a poetic number literal a comma is ignorable punctuation, whatever word follows it (also `and`) *)
+WordSeps == <<" ", ", ", " , ", ",">>
+RECURSIVE RElems(_, _, _, _)
+RElems(st, tp, es, first) ==
   IF es = <<>> THEN st
   ELSE LET h == Head(es) IN
-       RElems(CASE h.k = "w" -> Out(st, (IF first THEN "" ELSE " ") \o h.s)
+       RElems(CASE h.k = "w" -> (IF first THEN Out(st, h.s) ELSE LET p == Pick(st, tp, Len(WordSeps)) IN Out(p[2], WordSeps[p[1] + 1] \o h.s))
                 [] h.k = "s" -> Out(st, h.s)
-                [] h.k = "d" -> Out(st, IF first THEN "." ELSE " ."), Tail(es), FALSE)
+                [] h.k = "d" -> Out(st, IF first THEN "." ELSE " ."), tp, Tail(es), FALSE)
 
 -----------------------------------------------------------------------------
 (* statements.  Each statement is one line (compound statements: a header line, the blocks, a closing blank *)
@@ -320,7 +322,7 @@ RStmt(st0, tp, naming, s) ==
          LET l == RLhs(st, cx, s.dest)
              q == Pick(l, tp, 4 + Len(SfxForms(l)))
              h == IF q[1] < 4 THEN G(Word(G(q[2]), tp, IsWords[q[1] + 1])) ELSE G(Out(q[2], SfxForms(l)[q[1] - 3]))
-         IN IF s.e.e = "plit" THEN EolK(RElems(h, s.e.elems, TRUE), s, eol) ELSE EolK(E(h, s.e), s, eol)
+         IN IF s.e.e = "plit" THEN EolK(RElems(h, tp, s.e.elems, TRUE), s, eol) ELSE EolK(E(h, s.e), s, eol)
     [] s.s = "pstr" -> Out(Out(K(G(RLhs(st, cx, s.dest)), "k_says"), " " \o s.str), NL)      \* the text is taken verbatim: no decoration
     [] s.s = "if" ->
          LET h == EolK(E(G(K(st, "k_if")), s.c), s, eol)
@@ -359,7 +361,7 @@ RStmt(st0, tp, naming, s) ==
     [] s.s = "rock" ->
          LET h == E(G(K(st, "k_rock")), s.a) IN
          IF s.vals = <<>> THEN EolK(h, s, eol)
-         ELSE IF s.vals[1].e = "plit" THEN EolK(RElems(G(K(G(h), "k_like")), s.vals[1].elems, TRUE), s, eol)
+         ELSE IF s.vals[1].e = "plit" THEN EolK(RElems(G(K(G(h), "k_like")), tp, s.vals[1].elems, TRUE), s, eol)
          ELSE EolK(RList(G(K(G(h), "k_with")), cx, s.vals, "list"), s, eol)
     [] s.s = "rollst" ->
          LET h == E(G(K(st, "k_roll")), s.a) IN
